@@ -15,6 +15,12 @@ def step (c : Joyp.Ctl) (w : List String) : Joyp.Ctl × String :=
   | ["b", b, p] => match b.toNat?, p.toNat? with
       | some b, some p => let c' := Joyp.button c b (p != 0); (c', hex2 (Joyp.read c'))
       | _, _ => (c, "bad-op")
+  | ["e", b, p] => match b.toNat?, p.toNat? with
+      | some b, some p => (Joyp.button c b (p != 0), "ok")
+      | _, _ => (c, "bad-op")
+  | ["q", v] => match parseHex v with
+      | some n => (Joyp.write c (BitVec.ofNat 8 n), "ok")
+      | none => (c, "bad-op")
   | _ => (c, "bad-op")
 
 def run (lines : Array String) : IO Unit := runMode lines 1 Joyp.init step
